@@ -30,10 +30,12 @@ EvData == /\ IsEv("Data") /\ st[Ev.s] = "open" /\ Ev.g >= Open(st) /\ UNCHANGED 
 \* exactly one close, only for an identifier the application can know
 EvClose == /\ IsEv("Close") /\ st[Ev.s] \in {"none", "returned", "open"} /\ st' = [st EXCEPT ![Ev.s] = "closed"]
            /\ Ev.g >= Open(st') /\ UNCHANGED stopped
+\* a gauge sample taken by the application thread while nothing is in flight (after a settle time): never under-counts
+EvGauge == IsEv("Gauge") /\ Ev.g >= Open(st) /\ UNCHANGED <<st, stopped>>
 EvLifeCall == IsEv("LifeCall") /\ UNCHANGED <<st, stopped>>
 \* orderly stop: every identifier the application has seen is closed by now
 EvLifeRet == /\ IsEv("LifeRet") /\ \A i \in Ids : st[i] \in {"none", "closed"} /\ stopped' = TRUE /\ UNCHANGED st
 EvEnd == /\ IsEv("End") /\ \A i \in Ids : st[i] \in {"none", "closed"} /\ Ev.g = 0 /\ UNCHANGED <<st, stopped>>
-Next == EvBegin \/ EvReset \/ EvAccept \/ EvConnRet \/ EvConnect \/ EvData \/ EvClose \/ EvLifeCall \/ EvLifeRet \/ EvEnd
+Next == EvBegin \/ EvReset \/ EvGauge \/ EvAccept \/ EvConnRet \/ EvConnect \/ EvData \/ EvClose \/ EvLifeCall \/ EvLifeRet \/ EvEnd
 Spec == Init /\ [][Next]_vars
 ===================================================================================
